@@ -1083,7 +1083,7 @@ def real_readq(case):
             res = "ok " + (",".join(str(c.number) for c in pr.cells) or "-")
         except Exception as e:
             res = exc_name(e)
-        q = [int(fn[1:-2]) for (_, fn, _) in isr.reading_queue]
+        q = [int(item[1][1:-2]) for item in isr.reading_queue]
         return {"result": res, "queue": q, "log": len(MCNP_Parser.log._parse_fail_queue)}
     finally:
         _cleanup(d)
